@@ -112,6 +112,50 @@ PROPS = {
         'explanation': 'The reader driver lemma is stated for an ARBITRARY transmitted addition count k (read from the input) against the local count m: additions j < min(k, m) report bit j of the '
                        'transmitted bitmap, additions j >= k are absent, the cursor moves past all k bitmap bits; without the extension bit every addition is absent. Unbounded in counts and shapes.',
     },
+    'C04': {
+        'verus': [U_BITS, U_PER, U_SCOPE],
+        'kani_quick': [('der_readers_total', 300, True), ('proto_readers_total', 300, True)],
+        'search_groups': ['decode', 'bits'],
+        'bounded_search': [('decode', 'SAMPLED (not exhaustive, not a proof): random, truncated and bit-flipped input, aligned and unaligned, declared bit length <= 8*len, through every method of '
+                                      'the real `impl Reader for UperReader` (15 type kinds x 9 size / 10 number / 5 enumerated / 4 choice constraint variants, nested SEQUENCE / SEQUENCE OF / open types); '
+                                      'contract: Ok or Err, no panic / abort, cursor inside the input, a decoded value never larger than the bits consumed for it')],
+        'assumptions': [
+            'Verus proves, for every function under contract, absence of panics (index, slice range, arithmetic overflow, unwrap, assert!) and termination (decreases on every loop), the cursor '
+            'invariant pos <= limit <= 8*len on exit -- also on Err -- and that the input bytes and the visible limit are unchanged (frame): bit layer, all 13 PackedRead methods, Scope::read_from_field, '
+            'the UperReader helpers (length determinant, indexes, sub-slice, with_buffer)',
+            'allocation: read_bits_chunked is proved to hold at most (bits consumed so far)/8 + 16K octets at every exit, also on failure; further fragments are proved <= 64K octets each',
+            'the 19 methods of `impl Reader for UperReader` themselves and the generated read_seq glue are NOT under contract in this check (closure-generic trait; see DESIGN.md): they are exercised by the sampled decode group only',
+            'ProtobufReader (proto_read.rs: index_enclosed / read_content_offset_and_length) is NOT under contract; only the protobuf primitives (varint, fixed, tag, bytes) are proved total by Kani',
+            'DER: the primitives the crate implements (length, identifier, boolean, integer) are proved total by Kani for all inputs up to 10 octets (complete for these loop bounds)',
+            'a SEQUENCE OF of zero-width elements legitimately yields a count that is not bounded by the input size (X.691); not counted as unbounded work',
+        ],
+        'trusted_base': COMMON_TRUSTED + PER_TRUSTED + KANI_TRUSTED,
+        'not_under_contract': ['impl Reader for UperReader (19 methods)', 'descriptor/*.rs ReadableType glue', 'generated read_seq / read_content', 'ProtobufReader', 'BitVec (descriptor/bitstring.rs)', 'DER reader beyond the primitives'],
+        'explanation': 'Totality and in-bounds reads are discharged per function by Verus for the whole bit and PER layers and the scope/open-type machinery of the UPER reader: every reader method has '
+                       'wf(old) ==> wf(final) && same input && cursor monotone, on Ok AND on Err, with no panic path (Verus checks every index, cast and arithmetic operation), and every loop has a '
+                       'decreases clause tied to the remaining input. The DER and protobuf primitives are proved total on the compiled code by Kani. What is left outside the contracts is named above and covered by a sampled search only.',
+    },
+    'C19': {
+        'verus': [{'spec': 'scope.spec', 'variants': [(), ('descriptive-deserialize-errors',)]}, U_PER_DEP, U_BITS_DEP],
+        'static_cfggate': True,
+        'differential': True,
+        'search_groups': [],
+        'assumptions': [
+            'the two configurations are decided against ONE contract: the same sidecar text is verified over the extraction with and without --cfg feature="descriptive-deserialize-errors"; the contract is functional '
+            '(result value, error kind, final cursor, final scope are functions of the input), hence equal contracts give equal results. Functions under this dual verification: Scope::read_from_field and every UperReader helper that carries gated code',
+            'for the gated statements inside `impl Reader for UperReader` (not under a Verus contract) the decision is the syntactic frame rule of tools/cfggate.py: a gated statement that only pushes onto the diagnostics record, '
+            'with no `?`/return/break/continue, no `&mut` to anything else and no assignment cannot influence cursor, scope, result or control flow (Rust ownership). A gated site outside the rule whose function is not under contract makes the check UNDECIDED (exit 2), never a violation',
+            'ScopeDescription constructors (mod scope_description_impl) are opaque; they take values / shared references only and are scanned for unsafe, statics, interior mutability and panicking constructs on every run',
+            'Display for Error differs between the builds by design (it prints the diagnostics); not part of the property',
+            'the differential trace is a sampled stand-in (labelled, not counted as proof)',
+        ],
+        'trusted_base': COMMON_TRUSTED + PER_TRUSTED + ['stand-in prelude/scope_description.rs for the diagnostics record (feature-on variant only): external_body constructors, Clone for Error',
+                                                        'R19: format!() -> opaque String; R20: crate::rw:: path flattened',
+                                                        'Rust ownership/borrowing as enforced by rustc (for the frame rule)'],
+        'explanation': 'Three layers: (1) Verus verifies the real reader helpers twice, with the gated parameters/arguments/statements compiled out and compiled in, against the same functional contracts; '
+                       '(2) every one of the gated sites in uper.rs / err.rs is classified on every run and must fall under the ownership-based frame rule or inside a dually verified function; '
+                       '(3) a differential trace through both builds of the real crate serves as counterexample engine.',
+    },
     'C15': {
         'verus': [{'spec': 'inttype.spec'}],
         'kani_quick': [('inttype_fixed_both_bounds', 300, True), ('inttype_extensible', 300, True)],
